@@ -141,7 +141,12 @@ func dg4Result(f []string) string {
 	}
 	res := watchdog(5*time.Second, func() string {
 		return guard(func() string {
-			caps := server.VerifHandle4(hs, bound, dg, oob, &net.UDPAddr{IP: net.IPv4(192, 0, 2, 1), Port: 68})
+			// the UDP source of the datagram: nothing in C15 depends on it
+			src := &net.UDPAddr{IP: net.IPv4(192, 0, 2, 1), Port: 68}
+			if len(f) > 6 {
+				src = &net.UDPAddr{IP: net.IP(unhx(f[5])), Port: atoi(f[6])}
+			}
+			caps := server.VerifHandle4(hs, bound, dg, oob, src)
 			if len(caps) == 0 {
 				return "drop"
 			}
@@ -490,7 +495,17 @@ func (c *ctx) oneDg4() []string {
 		if bound == 0 && oob <= 0 && c.rng.Intn(4) != 0 {
 			oob = 4 // listen4 enables pktinfo on unbound listeners (fact F5)
 		}
-		return []string{"dg4", fmt.Sprint(bound), fmt.Sprint(oob), c.chain(false), hx(dg)}
+		op := []string{"dg4", fmt.Sprint(bound), fmt.Sprint(oob), c.chain(false), hx(dg)}
+		if c.rng.Intn(3) == 0 {
+			// where the datagram came from: the client's own address (ciaddr), the relay, anything; any port
+			srcs := []net.IP{d.ClientIPAddr.To4(), d.GatewayIPAddr.To4(), net.IPv4(10, 7, 7, 7).To4(), net.IPv4zero.To4()}
+			src := srcs[c.rng.Intn(len(srcs))]
+			if src == nil {
+				src = net.IPv4zero.To4()
+			}
+			op = append(op, hx(src), fmt.Sprint([]int{68, 67, 1068, 49152, 0}[c.rng.Intn(5)]))
+		}
+		return op
 	}
 }
 
